@@ -2,7 +2,8 @@
 
 The descriptor space of coq/model/Validate.v is enumerated EXHAUSTIVELY per entry
 point (full product of the axes the entry point takes; levels and bin numbers cut
-at the guard boundaries, lengths as equal / shorter / longer / empty), every
+at the guard boundaries; len(y_obs) a single observation or 5..10; every other length
+as equal / shorter (>= 2) / longer / empty / exactly 1 against n >= 2), every
 descriptor is concretised with `reps` random, otherwise valid data sets, the REAL
 entry point is called and the class of the outcome is recorded:
 
@@ -14,10 +15,12 @@ entry point is called and the class of the outcome is recorded:
   run_validate.py judge  <cases.json>
   run_validate.py search <seed> <budget>
 
-`corr` writes shards of 2000 cases for coq/corr/CmpValidate.v (one case = one
-descriptor with the outcomes of all its replicates), <prefix>_cases.json (the
-descriptors, same order) and prints one JSON object on the last line; the work is
-spread over VALIDATE_JOBS processes (default min(12, cpus)), the result does not
+`corr` writes shards of 20000 cases for coq/corr/CmpValidate.v (one case = one
+descriptor with the outcomes of all its replicates, packed into one uint63 literal:
+`pack` here, `dec_case` there), <prefix>_cases.json (the descriptors in the same
+order, as the 12+k character strings of `encode`; `decode` / mode judge read them)
+and prints one JSON object on the last line; the work is
+spread over VALIDATE_JOBS processes (default min(16, cpus)), the result does not
 depend on the number of processes (one random.Random per descriptor, seeded by
 "<seed>/<entry>/<index>").  The judge evaluates the TEXT of the property (functions
 `clauses`, `judge_one`) on the implementation; it does not use the Coq model.
@@ -60,9 +63,12 @@ LEVELS = [-1.0, 0.0, TINY, 0.5, ONE_M, 1.0, 2.0]
 FUNCS = ["mean", "median", "expectile", "quantile", "other"]
 BMS = ["valid", "other"]
 NBINS = [-1, 0, 1, 2, 3]
-RELS = ["eq", "shorter", "longer", "empty"]
+NOBS = ["many", "one"]             # len(y_obs): 5..10, or a single observation
+# length of the other vector relative to n = len(y_obs): equal, 2 <= m < n, m > n, 0, or 1 (with n >= 2);
+# for n = 1 only eq / longer / empty exist
+RELS = ["eq", "shorter", "longer", "empty", "one"]
 FEATS = [None] + RELS
-WEIGHTS = [None] + [(rel, rank, sign) for rel in ("eq", "shorter", "longer") for rank in (1, 2)
+WEIGHTS = [None] + [(rel, rank, sign) for rel in ("eq", "shorter", "longer", "one") for rank in (1, 2)
                     for sign in ("pos", "zero", "neg")] + [("empty", 1, "pos"), ("empty", 2, "pos")]
 KINDS = ["HomogeneousExpectileScore", "SquaredError", "PoissonDeviance", "GammaDeviance", "LogLoss",
          "HomogeneousQuantileScore", "PinballLoss", "ElementaryScore"]
@@ -72,27 +78,27 @@ OTHER_F = ["foo", "Mean", "", "quantiles", "means", "expectiles", "MEDIAN", None
 
 # axes enumerated per entry point (= the documented arguments the entry point takes)
 AXES = {
-    "ident": ["level", "functional", "pred"],
-    "bias": ["level", "functional", "bm", "nbins", "pred", "feat", "weights"],
-    "marginal": ["bm", "nbins", "pred", "feat", "weights"],
+    "ident": ["nobs", "level", "functional", "pred"],
+    "bias": ["nobs", "level", "functional", "bm", "nbins", "pred", "feat", "weights"],
+    "marginal": ["nobs", "bm", "nbins", "pred", "feat", "weights"],
     "ctor": ["kind", "level", "functional"],
-    "per_obs": ["kind", "level", "functional", "pred"],
-    "call": ["kind", "level", "functional", "pred", "weights"],
-    "decompose": ["level", "functional", "pred", "weights"],
-    "decompose_infer": ["kind", "level", "functional", "pred", "weights"],
-    "isoreg": ["level", "functional", "weights"],
-    "isofit": ["level", "functional", "pred", "weights"],
-    "bin_feature": ["bm", "nbins", "featreq"],
-    "pd": ["weights"],
-    "plot_rel": ["level", "functional", "pred", "weights"],
-    "plot_bias": ["level", "functional", "bm", "nbins", "pred", "feat", "weights"],
-    "plot_marginal": ["bm", "nbins", "pred", "feat", "weights"],
-    "plot_murphy": ["level", "functional", "pred", "weights"],
-    "val2": ["pred"],
-    "valsame": ["pred"],
+    "per_obs": ["nobs", "kind", "level", "functional", "pred"],
+    "call": ["nobs", "kind", "level", "functional", "pred", "weights"],
+    "decompose": ["nobs", "level", "functional", "pred", "weights"],
+    "decompose_infer": ["nobs", "kind", "level", "functional", "pred", "weights"],
+    "isoreg": ["nobs", "level", "functional", "weights"],
+    "isofit": ["nobs", "level", "functional", "pred", "weights"],
+    "bin_feature": ["nobs", "bm", "nbins", "featreq"],
+    "pd": ["nobs", "weights"],
+    "plot_rel": ["nobs", "level", "functional", "pred", "weights"],
+    "plot_bias": ["nobs", "level", "functional", "bm", "nbins", "pred", "feat", "weights"],
+    "plot_marginal": ["nobs", "bm", "nbins", "pred", "feat", "weights"],
+    "plot_murphy": ["nobs", "level", "functional", "pred", "weights"],
+    "val2": ["nobs", "pred"],
+    "valsame": ["nobs", "pred"],
 }
 PLOT_ENTRIES = {"plot_rel", "plot_bias", "plot_marginal", "plot_murphy"}
-AXIS_VALUES = {"level": LEVELS, "functional": FUNCS, "bm": BMS, "nbins": NBINS, "pred": RELS, "feat": FEATS,
+AXIS_VALUES = {"nobs": NOBS, "level": LEVELS, "functional": FUNCS, "bm": BMS, "nbins": NBINS, "pred": RELS, "feat": FEATS,
                "featreq": RELS, "weights": WEIGHTS, "kind": KINDS}
 COQ_ENTRY = {"ident": "E_ident", "bias": "E_bias", "marginal": "E_marginal", "ctor": "E_ctor", "per_obs": "E_per_obs",
              "call": "E_call", "decompose": "E_decompose", "decompose_infer": "E_decompose_infer",
@@ -115,18 +121,42 @@ def rel_len(rel, n, rng):
         return rng.randrange(2, n)
     if rel == "longer":
         return n + rng.randrange(1, 4)
+    if rel == "one":
+        return 1
     return 0
 
 
+def grid_point_ok(entry, a):
+    """the combinations of axis values that exist"""
+    one = a.get("nobs") == "one"
+    rels = [a.get("pred"), a.get("feat"), a.get("featreq")] + ([a["weights"][0]] if a.get("weights") else [])
+    if one and any(r in ("shorter", "one") for r in rels):
+        return False                                  # for n = 1: "one" is "eq", "shorter" is "empty"
+    w = a.get("weights")
+    if w is not None and w[2] != "pos" and (w[0] == "one" or (one and w[0] == "eq")):
+        # A weight vector of length 1 with a non-positive entry has NO positive weight: numpy.average raises
+        # ZeroDivisionError for a zero sum, scikit-learn "0 samples" - data effects that the sign classes
+        # (some entry non-positive, the others positive) do not describe.  Kept where the sign is an argument
+        # check of its own: isotonic_regression and IsotonicRegression.fit.
+        return entry in ("isoreg", "isofit")
+    return True
+
+
+_GRID = {}
+
+
 def grid(entry):
-    """every point of the product of the entry's axes"""
-    axes = AXES[entry]
-    return [dict(zip(axes, vals)) for vals in itertools.product(*[AXIS_VALUES[a] for a in axes])]
+    """every existing point of the product of the entry's axes"""
+    if entry not in _GRID:
+        axes = AXES[entry]
+        pts = [dict(zip(axes, vals)) for vals in itertools.product(*[AXIS_VALUES[a] for a in axes])]
+        _GRID[entry] = [a for a in pts if grid_point_ok(entry, a)]
+    return _GRID[entry]
 
 
 def descriptor_at(entry, a, rng):
     """the descriptor of grid point a, with concrete lengths; None for the skipped corner"""
-    n = rng.randrange(5, 11)
+    n = 1 if a.get("nobs") == "one" else rng.randrange(5, 11)
     d = dict(entry=entry, level=a.get("level", 0.5), functional=a.get("functional", "mean"),
              bm=a.get("bm", "valid"), n_bins=a.get("nbins", 10), n_obs=n,
              n_pred=rel_len(a.get("pred", "eq"), n, rng), n_feat=None, n_w=None, rank=1, sign="pos",
@@ -153,16 +183,10 @@ def eff_functional(d):
 
 
 def skip(d):
-    """Corner left out of the enumeration because the outcome is NOT a function of the descriptor:
-    decompose on the scikit-learn route (mean functional) with correctly shaped but non-positive weights and
-    every other argument valid.  scikit-learn drops those samples, the recalibrated prediction at a dropped
-    extreme sample is NaN, and whether that ends in a ValueError (domain check of the scoring function) or in a
-    table containing NaN depends on the data.  No clause of C20 speaks about this call."""
-    if not (d["entry"] in ("decompose", "decompose_infer") and d["n_w"] is not None and d["sign"] != "pos"
-            and eff_functional(d) == "mean"):
-        return False
-    ctor_rejects = (d["entry"] == "decompose_infer" and d["kind"] in HAS_LEVEL_ARG and not 0 < d["level"] < 1)
-    return not any(clauses(d).values()) and not ctor_rejects
+    """No corner is left out any more.  (Until /repo commit e264e60 decompose on the scikit-learn route with
+    correctly shaped non-positive weights gave NaN predictions at dropped extreme samples and a data-dependent
+    outcome; with out_of_bounds="clip" the call returns a table, as the model says.)"""
+    return False
 
 
 # ------------------------------------------------------------------ concretisation
@@ -341,6 +365,8 @@ def concretise(d, rng, i=0):
         p = make_pred(rng, d, True) if rng.random() < 0.25 else p1
         return lambda: plot_reliability_diagram(y, p, w, functional=f, level=lvl, diagram_type=dt)
     if e == "plot_murphy":
+        if d["n_obs"] == 1 and d["n_pred"] == 1 and float(np.asarray(y)[0]) == float(np.asarray(p1)[0]):
+            p1 = np.array([float(np.asarray(y)[0]) / 2])   # "all values are one single and same value" is not an argument check
         f, etas = fname(rng, d), rng.choice([3, 7])
         p = make_pred(rng, d, True) if rng.random() < 0.25 else p1
         return lambda: plot_murphy_diagram(y, p, w, etas=etas, functional=f, level=lvl)
@@ -466,15 +492,52 @@ def judge_one(d, codes):
 
 
 # ------------------------------------------------------------------ Coq case text
-def coq_case(d, codes):
-    opt = lambda v: "None" if v is None else f"(Some {v}%nat)"  # noqa: E731
-    return (f"mkvcase {COQ_ENTRY[d['entry']]} (mkD {qlit(d['level'])} {COQ_F[d['functional']]} "
-            f"{'BMvalid' if d['bm'] == 'valid' else 'BMother'} ({d['n_bins']})%Z {d['n_obs']}%nat {d['n_pred']}%nat "
-            f"{opt(d['n_feat'])} {opt(d['n_w'])} {'R1' if d['rank'] == 1 else 'R2'} {COQ_SIGN[d['sign']]} "
-            f"{COQ_K[d['kind']]}) [{'; '.join(COQ_OUT[c] for c in codes)}]")
+ENTRY_CH = {e: chr(97 + k) for k, e in enumerate(AXES)}
+F_CH = {"mean": "m", "median": "d", "expectile": "e", "quantile": "q", "other": "o"}
+NBINS_TAB = [-1, 0, 1, 2, 3, 10]
+SIGN_CH = {"pos": "p", "zero": "z", "neg": "n"}
 
 
-CHUNK = 3000
+def encode(d, codes=""):
+    """12 characters per descriptor (decoded by corr/CmpValidate.v: dec_case) + the outcome codes"""
+    ln = lambda v: "-" if v is None else chr(65 + v)  # noqa: E731
+    assert all(v is None or 0 <= v <= 25 for v in (d["n_obs"], d["n_pred"], d["n_feat"], d["n_w"]))
+    return (ENTRY_CH[d["entry"]] + str(LEVELS.index(d["level"])) + F_CH[d["functional"]]
+            + ("v" if d["bm"] == "valid" else "o") + str(NBINS_TAB.index(d["n_bins"])) + ln(d["n_obs"]) + ln(d["n_pred"])
+            + ln(d["n_feat"]) + ln(d["n_w"]) + str(d["rank"]) + SIGN_CH[d["sign"]] + str(KINDS.index(d["kind"])) + codes)
+
+
+CODE_IX = {c: k for k, c in enumerate("OVNTSUX")}
+
+
+def pack(d, codes):
+    """the descriptor and its outcome codes as one 63-bit integer (bit layout: corr/CmpValidate.v, dec_case)"""
+    ol = lambda v: 0 if v is None else v + 1  # noqa: E731
+    assert max(d["n_obs"], d["n_pred"], ol(d["n_feat"]), ol(d["n_w"])) < 32 and len(codes) <= 3
+    fields = [(list(AXES).index(d["entry"]), 5), (LEVELS.index(d["level"]), 3), (FUNCS.index(d["functional"]), 3),
+              (0 if d["bm"] == "valid" else 1, 1), (NBINS_TAB.index(d["n_bins"]), 3), (d["n_obs"], 5), (d["n_pred"], 5),
+              (ol(d["n_feat"]), 5), (ol(d["n_w"]), 5), (d["rank"] - 1, 1), (["pos", "zero", "neg"].index(d["sign"]), 2),
+              (KINDS.index(d["kind"]), 3), (len(codes), 2)] + [(CODE_IX[c], 3) for c in codes]
+    x, off = 0, 0
+    for v, w in fields:
+        assert 0 <= v < (1 << w)
+        x |= v << off
+        off += w
+    return x
+
+
+def decode(s):
+    """inverse of encode -> (descriptor dict, codes)"""
+    ln = lambda c: None if c == "-" else ord(c) - 65  # noqa: E731
+    inv = lambda m, c: next(k for k, v in m.items() if v == c)  # noqa: E731
+    d = dict(entry=inv(ENTRY_CH, s[0]), level=LEVELS[int(s[1])], functional=inv(F_CH, s[2]),
+             bm="valid" if s[3] == "v" else "other", n_bins=NBINS_TAB[int(s[4])], n_obs=ln(s[5]), n_pred=ln(s[6]),
+             n_feat=ln(s[7]), n_w=ln(s[8]), rank=int(s[9]), sign=inv(SIGN_CH, s[10]), kind=KINDS[int(s[11])])
+    return d, s[12:]
+
+
+CHUNK = 4000
+SHARD = 20000
 
 
 def run_chunk(task):
@@ -529,7 +592,7 @@ def run_all(entries, seed, reps, plot_reps, jobs):
 def main_corr(argv):
     outdir, prefix, seed, reps, plot_reps = argv[0], argv[1], argv[2], int(argv[3]), int(argv[4])
     entries = argv[5].split(",") if len(argv) > 5 and argv[5] else list(AXES)
-    jobs = int(os.environ.get("VALIDATE_JOBS", min(12, os.cpu_count() or 1)))
+    jobs = int(os.environ.get("VALIDATE_JOBS", min(16, os.cpu_count() or 1)))
     per_entry, _ = run_all(entries, seed, reps, plot_reps, jobs)
     allc, stats, pfails, unstable, ncalls = [], {}, [], [], 0
     for e in entries:
@@ -546,13 +609,16 @@ def main_corr(argv):
                         other_exception_classes=per_entry[e]["names"], violating_descriptors=nviol)
         allc += cases
     os.makedirs(outdir, exist_ok=True)
-    paths, size = [], 2000
+    paths, size = [], SHARD
     for k, sh in enumerate(shard(allc, size)):
         p = os.path.join(os.path.abspath(outdir), f"{prefix}_{k}.v")
-        body = "Definition cases : list vcase := [\n  " + ";\n  ".join(coq_case(d, c) for d, c in sh) + "\n]."
-        write_case_file(p, "From MD Require Import model.Validate corr.Decode corr.CmpValidate.", body, "summary cases")
+        blocks = ["[" + "; ".join(str(pack(d, c)) for d, c in sh[b:b + 500]) + "]" for b in range(0, len(sh), 500)]
+        body = ("Open Scope uint63_scope.\nDefinition cases : list (list int) := [\n  " + ";\n  ".join(blocks)
+                + "\n]%list.\nClose Scope uint63_scope.")
+        write_case_file(p, "From MD Require Import model.Validate corr.Decode corr.CmpValidate.", body, "summary_int cases")
         paths.append(p)
-    json.dump([dict(d, observed=c) for d, c in allc], open(os.path.join(outdir, prefix + "_cases.json"), "w"))
+    # the descriptors in the same order, in the compact encoding (run_validate.decode / mode `judge` read it)
+    json.dump([encode(d, c) for d, c in allc], open(os.path.join(outdir, prefix + "_cases.json"), "w"))
     samples = [dict(d, observed=c) for d, c in allc if c[0] != "V"][:: max(1, len(allc) // 60)][:3]
     accepted = [f for f in pfails if f["kind"] == "accepted"]
     wrong_class = [f for f in pfails if f["kind"] == "class"]
@@ -573,7 +639,7 @@ def main_judge(argv):
     dicts = json.load(open(argv[0]))
     fails = []
     for k, d in enumerate(dicts):
-        d = {kk: v for kk, v in d.items() if kk != "observed"}
+        d = decode(d)[0] if isinstance(d, str) else {kk: v for kk, v in d.items() if kk != "observed"}
         rng = random.Random(f"judge/{k}")
         codes = "".join(observe(concretise(d, rng, r))[0] for r in range(3))
         for f in judge_one(d, codes):
